@@ -22,10 +22,12 @@ def compiles(cmd, ctx):
     info = {"batches": len(st), "schemas": sum(b["schemas"] for b in st), "lines": sum(b["lines"] for b in st),
             "generate_s": round(sum(b["gen_s"] for b in st), 2), "build_s": round(sum(b["build_s"] for b in st), 2)}
     if bad:
+        # the compiler's (or generator's) first complaint leads, so that it survives into the replay file's
+        # broken_obligations; the cases of the batch come back "nobuild" and are the failing inputs
+        msg = [l for l in bad[0].get("log", "").split("\n") if l and not l.startswith(("go build:", "#"))]
+        info = dict([("compiler", (msg[0] if msg else bad[0].get("log", ""))[:280]), ("batch", bad[0]["dir"])] + list(info.items()))
         info["log"] = bad[0].get("log", "")[:1500]
-    return st, [{"name": name, "ok": not bad, "info": info,
-                 "failures": [{"case": ["batch", b["dir"], b.get("log", "")[:400]], "classes": ["gen_does_not_compile"],
-                               "verdict": "fail:gen_does_not_compile"} for b in bad]}]
+    return st, [{"name": name, "ok": not bad, "info": info}]
 
 
 def assignnode(cmd, ctx, st):
@@ -36,14 +38,19 @@ def assignnode(cmd, ctx, st):
         nd = []
     fails = []
     for d in nd:
-        if d.get("safe"):
-            # neither a typed map nor a recursive value behind a Maybe: nothing of the known defect applies
+        flip = d["direct"][:2] != d["node"][:2] and d["node"] != "panic"      # ok <-> err
+        if d.get("safe") or flip:
+            # neither a typed map nor a recursive value behind a Maybe: nothing of the known defect applies;
+            # and the known defect panics or leaves an unreadable node, it never turns a verdict round
             cls = "gen_assignnode_unexplained"
+        elif d["node"] == "panic":
+            cls = "gen_assignnode_panic" if d.get("map") else "gen_assignnode_maybe_nil"
         else:
-            cls = "gen_assignnode_panic" if d["node"] == "panic" else "gen_assignnode_differs"
+            cls = "gen_assignnode_differs"
         fails.append({"case": d["case"], "classes": [cls], "verdict": "fail:" + cls})
     runs = sum(b.get("node_runs", 0) for b in st)
     return [{"name": "generated builders: AssignNode(basicnode tree) == plain call sequence (%d runs) — checked, not modelled" % runs,
              # discharged = the comparison was carried out; every difference found is a failure record of
              # its own (known finding or violation), like oracle failures of the correspondence run
-             "ok": runs > 0 or not st, "info": {"differences": len(fails)}, "failures": fails[:50]}]
+             "ok": runs > 0 or not any(b.get("compiled") for b in st),  # nothing compiled: that obligation reports it
+              "info": {"differences": len(fails)}, "failures": fails[:50]}]
